@@ -29,7 +29,7 @@ CONSTANTS Users,        \* accounts that can sign (exist at genesis)
                         \* block meter): used ONLY to classify an already rejected trace as that known defect, never to accept
 
 Names == Users \cup Others
-Kinds == {"send", "set", "inc", "setpanic", "setpay", "burn", "burnn", "redeploy"}
+Kinds == {"send", "set", "inc", "setpanic", "setpay", "burn", "burnn", "redeploy", "grow", "growfail"}
 
 VARIABLES bal, seq, rv,          \* deliver state (block-level overlay): balances, sequences, realm variables
           blockGas, maxGas,
@@ -119,6 +119,7 @@ Msg ==
         /\ IF g > tx.gw \/ m.kind = "burn" THEN fail("oog")
            ELSE IF m.kind \in {"send", "setpay"} /\ lbal[s] < m.amt THEN fail("funds")
            ELSE IF m.kind = "setpanic" THEN fail("panic")
+           ELSE IF m.kind = "growfail" THEN fail("deposit")        \* storage grows beyond the message's MaxDeposit
            ELSE /\ CASE m.kind = "send" ->
                          /\ lbal' = [[lbal EXCEPT ![s] = @ - m.amt] EXCEPT ![m.to] = @ + m.amt]
                          /\ UNCHANGED lrv
@@ -127,6 +128,9 @@ Msg ==
                          /\ lbal' = [[lbal EXCEPT ![s] = @ - m.dep] EXCEPT !["dep"] = @ + m.dep]
                       [] m.kind = "redeploy" ->    \* re-deployment of the private realm: its code version is state like any other
                          /\ lrv' = [lrv EXCEPT !["pv"] = m.val]
+                         /\ lbal' = [[lbal EXCEPT ![s] = @ - m.dep] EXCEPT !["dep"] = @ + m.dep]
+                      [] m.kind = "grow" ->        \* storage grows by m.val bytes, deposit locked from the caller
+                         /\ lrv' = [lrv EXCEPT !["blob"] = @ + m.val]
                          /\ lbal' = [[lbal EXCEPT ![s] = @ - m.dep] EXCEPT !["dep"] = @ + m.dep]
                       [] m.kind = "inc" ->
                          /\ lrv' = [lrv EXCEPT ![m.var] = @ + 1]
